@@ -422,3 +422,39 @@ where
         }
     })
 }
+
+/// "Twins" of a hand of distinct cards: the same ranks with the suits of two cards exchanged (same rank
+/// multiset, same suit histogram, different hand). These are the inputs a lossy cache key built from
+/// rank primes, sums or suit counts would confuse with the hand itself.
+pub fn suit_swap_twins(c: &[u8]) -> Vec<Vec<u8>> {
+    let n = c.len();
+    let mut out = Vec::new();
+    for i in 0..n {
+        for j in (i + 1)..n {
+            let (ri, si) = (12 - c[i] % 13, c[i] / 13);
+            let (rj, sj) = (12 - c[j] % 13, c[j] / 13);
+            if si == sj || ri == rj {
+                continue;
+            }
+            let a = sj * 13 + (12 - ri);
+            let b = si * 13 + (12 - rj);
+            if c.contains(&a) || c.contains(&b) {
+                continue;
+            }
+            let mut t = c.to_vec();
+            t[i] = a;
+            t[j] = b;
+            out.push(t);
+        }
+    }
+    out
+}
+
+#[inline]
+pub fn max_suit_count(c: &[u8]) -> u32 {
+    let mut n = [0u32; 4];
+    for &x in c {
+        n[(x / 13) as usize] += 1;
+    }
+    *n.iter().max().unwrap()
+}
